@@ -236,6 +236,8 @@ def excel_serial(t, with_time=True):
     d = (t.date() - _dt.date(1899, 12, 30)).days
     if not with_time:
         return float(d)
+    # whole seconds: whether the sub-second part is truncated or rounded is
+    # left open (comparisons allow one second)
     return d + (t.hour * 3600 + t.minute * 60 + t.second) / 86400.0
 
 
